@@ -16,6 +16,14 @@ Streams (all compared with the Lean model `Clikit.Tokenizer`, all judged by `ora
   a  the same rendering over a command-line vocabulary, and then StringArgs(string) against
      ArgvArgs([script] + tokens): tokens, option_tokens, the real DefaultArgsParser on a fixed format
      (strict and lenient), the real resolver and `create_io` of a small application.
+  h  HISTORIES on one parser object: 2-4 command lines over the same vocabulary (earlier lines often contain `--`),
+     each given as a command string AND as the equivalent argv list, one right after the other, to ONE
+     DefaultArgsParser - used directly on the fixed format (strict or lenient per line), or installed with
+     Config.set_args_parser on every command config of a fresh application and reached through resolve_command.
+     The direct form is compared with the composed model (`Lines.lineHistory`: tokenizer model + parser model on one
+     object, entry c08.line_history); the oracle demands string form = argv form, that only tokens before the line's
+     first `--` are reported as options, that (strict success) every flag token before it is, and that everything
+     after it is an argument.
   v  argv lists given to ArgvArgs directly (script name first; the empty list raises IndexError in the
      implementation and in the model, and the oracle demands nothing there).
   d  a few deeply nested strings (alternating quotes) - the recursion of `_parse_quoted_string`.
@@ -45,9 +53,14 @@ LEVEL_TEXT = ("Proved for ALL strings / token lists about the model: tokenize_to
               "by arbitrary non-empty whitespace with optional leading/trailing whitespace, tokenises back to exactly "
               "that list), unquoted_split (text without quotes/backslashes splits into its maximal non-whitespace runs), "
               "option_tokens_* (option tokens = tokens before the first '--'; nothing after it counts) and "
-              "string_argv_same.  The model is tied to the code by an exhaustive comparison on every string up to length "
-              "5/7 over a seven-character alphabet and by generated quoted token lists; that the parser and the resolver "
-              "cannot tell a command string from the argv list of its tokens is checked on the real classes, not proved.")
+              "string_argv_same; on the composition with the parser model (Model/Lines.lean): string_argv_same_parse (the "
+              "command string on a parser object in ANY state and the argv list of its tokens on an object in any other "
+              "state are parsed to the same result), line_history_fresh / earlier_lines_inert / line_history_form_irrelevant "
+              "(for every sequence of lines in either form on one parser object each line gets the fresh parse of its "
+              "tokens: a `--` ends the options of ITS line only).  The model is tied to the code by an exhaustive comparison on every string up to length "
+              "5/7 over a seven-character alphabet and by generated quoted token lists, and by histories of lines in both forms on one real "
+              "parser object (entry c08.line_history); that the RESOLVER cannot tell a command string from the argv list of "
+              "its tokens is checked on the real classes (also with one parser object installed on the command configs), not proved.")
 LEVEL_NOTE = ("Trusted: Lean kernel + propext/Quot.sound/Classical.choice; the hand-written model (fidelity = what the "
               "correspondence sampled, exhaustively up to length 7 in the thorough tier); this harness.  The generated "
               "str.isspace table is no longer only trusted: the model's table is compared with str.isspace of the running "
@@ -61,18 +74,21 @@ REQUIRED_THEOREMS = ["Clikit.Props.C08." + n for n in (
     "runs_nonempty_nospace", "option_tokens_takeWhile", "option_tokens_raw", "option_tokens_cut",
     "option_tokens_all", "option_tokens_prefix", "option_token_after_dashes", "string_argv_same",
     "quoted_string_is_argv", "string_argv_same_total", "option_tokens_split", "option_tokens_idem",
-    "option_tokens_tail_irrelevant")]
+    "option_tokens_tail_irrelevant", "line_raw_total", "string_argv_same_parse", "line_history_fresh",
+    "earlier_lines_inert", "line_history_form_irrelevant", "freshOut_forms")]
 RULE = ("s: exhaustive strings up to length 5 (quick) / 7 (thorough) over {a,space,tab,',\",\\,-}, each up to length 5 "
         "also quoted as a token in both quote styles, plus seeded random strings of length 0-12 over the wide alphabet; q: seeded random token lists (0-4 tokens x 0-5 chars over letters, "
         "ASCII/non-ASCII whitespace, quotes, backslash, '-', '=', non-ASCII) x style per token x separators, plus a negative "
         "sub-stream violating one round-trip hypothesis; a: command-line vocabulary rendered the same way, string form vs "
-        "argv form through parser, resolver and create_io; v: argv lists over the same vocabulary given to ArgvArgs directly; d: nesting depth probes; w: the whitespace table on all code points in blocks of 8192.  Non-trivial = the input contains a "
+        "argv form through parser, resolver and create_io; h: 24 fixed + 800 (quick) / 30 000 (thorough) seeded histories of 2-4 such lines (a `--` inserted into 60 % of the first and 30 % of the later lines), every line in both forms back to back on ONE parser object, directly or through set_args_parser + resolve_command; v: argv lists over the same vocabulary given to ArgvArgs directly; d: nesting depth probes; w: the whitespace table on all code points in blocks of 8192.  Non-trivial = the input contains a "
         "quote or a backslash, or yields at least two tokens; distinct = distinct (stream, input string)")
 TRUSTED_BASE = [
     "Lean 4.33 kernel; axioms propext, Classical.choice, Quot.sound only (audited per theorem on every run)",
     "lean/Clikit/Model/Tokenizer.lean: hand-written model of TokenParser on its object state (_string, _cursor, _current, "
     "_next_), method by method (proved equal to the remaining-text scanner: object_model_eq), StringArgs, ArgvArgs - "
     "fidelity is what the correspondence run compared",
+    "lean/Clikit/Model/Lines.lean + Model/Parser.lean (hand-written parser model shared with C01/C02/C05, its resets read "
+    "from the source: Gen/C05): the composed model the line histories are compared with",
     "tools/genparts/c08.py: str.isspace table of the running interpreter (checked on every code point by stream w), ast "
     "shape checks of token_parser.py / *_args.py",
     "harness/props/c08.py: generators, canonicalisation, Python statement of quote/expressible/runs used by the oracle",
@@ -82,7 +98,8 @@ ASSUMPTIONS = [
     "unbounded call stack: _parse_quoted_string recurses once per nested alternating quote; CPython raises RecursionError "
     "at a nesting depth of about 990 (limit 1000) - outside the bounded scope, reported as a finding, not modelled",
     "strings are sequences of Unicode scalar values (no lone surrogates)",
-    "string form vs argv form through DefaultArgsParser / resolver / create_io: checked on generated command lines, not proved",
+    "string form vs argv form through the resolver / create_io / a whole run: checked on generated command lines, not proved "
+    "(through DefaultArgsParser: proved on the composed model, which is compared with the real parser on the line histories)",
 ]
 BUDGET_S = {"quick": 70, "thorough": 760}
 BATCH = 20000
@@ -243,7 +260,7 @@ def _gen_neg(rng):
     return {"k": "q", "pieces": ps, "trail": trail}
 
 
-def _gen_a(rng):
+def _a_tokens(rng):
     n = rng.choice([0, 1, 2, 2, 3, 3, 4, 4, 5, 6])
     toks = []
     for i in range(n):
@@ -254,7 +271,48 @@ def _gen_a(rng):
             toks.append("add")
         else:
             toks.append(rng.choice(VOCAB))
+    return toks
+
+
+def _gen_a(rng):
+    toks = _a_tokens(rng)
     return {"k": "a", "pieces": _pieces(rng, toks), "trail": _sep(rng, True)}
+
+
+def _h_line(rng, toks):
+    return {"pieces": _pieces(rng, toks), "trail": _sep(rng, True), "first": rng.choice(["string", "argv"]),
+            "lenient": rng.random() < 0.3}
+
+
+def _gen_h(rng):
+    """several command lines for ONE parser object (used directly, or installed with set_args_parser on the command
+    configs of an application), each given in both forms one after the other; earlier lines often contain `--`"""
+    lines = []
+    for i in range(rng.choice([2, 2, 3, 3, 4])):
+        toks = _a_tokens(rng)
+        if rng.random() < (0.6 if i == 0 else 0.3):
+            toks.insert(rng.randint(0, len(toks)), "--")
+        lines.append(_h_line(rng, toks))
+    return {"k": "h", "via": rng.choice(["parser", "command"]), "lines": lines}
+
+
+# fixed histories: a line with `--` (options before it, option look-alikes after it), then lines with options
+H_FIXED = [[["-v", "--", "-f"], ["-f", "x"]],
+           [["pkg", "-f", "--", "--to"], ["pkg", "--to", "a", "-f"]],
+           [["--"], ["-v"], ["pkg", "--force"]],
+           [["x", "--", "--"], ["--", "-v"], ["-v", "y"]],
+           [["pkg", "add", "--", "-f", "--"], ["pkg", "add", "-f", "i"], ["ls", "-v"]],
+           [["pkg", "--force"], ["pkg", "--", "--force"], ["pkg", "--force"]]]
+
+
+def _fixed_h():
+    for hist in H_FIXED:
+        for via in ("parser", "command"):
+            for first in ("string", "argv"):
+                yield {"k": "h", "via": via, "lines": [
+                    {"pieces": [{"sep": " " if i else "", "style": "bare" if py_plain(t) else "single", "tok": t}
+                                for i, t in enumerate(toks)], "trail": "", "first": first, "lenient": False}
+                    for toks in hist]}
 
 
 def _single_tokens(maxlen):
@@ -288,7 +346,11 @@ def generate(tier, rng):
             yield {"k": "s", "s": t, "pre": pre}
     for _ in range(300 if quick else 5000):
         yield {"k": "s", "s": "".join(rng.choice(wide0) for _ in range(rng.randrange(0, 4))), "pre": rng.choice(pres)}
+    for case in _fixed_h():
+        yield case
     nq, nneg, na = (20000, 5000, 4000) if quick else (300000, 60000, 60000)
+    for _ in range(800 if quick else 30000):
+        yield _gen_h(rng)
     # interleave the exhaustive enumeration with the seeded streams so that a cut at the time budget
     # (reported, and clears the `exhaustive` flag) never starves one stream completely
     for case in _single_tokens(4 if quick else 5):
@@ -377,26 +439,46 @@ def _argv_raw(argv):
 _APP = None
 
 
+def _make_app(shared_parser=None):
+    """the small application; with `shared_parser` every command config gets that ONE parser object
+    (Config.set_args_parser) instead of a new DefaultArgsParser per parse"""
+    from clikit import ConsoleApplication
+    from clikit.config.default_application_config import DefaultApplicationConfig
+    from clikit.api.args.format import Argument, Option
+    config = DefaultApplicationConfig("app", "1.0")
+    config.set_catch_exceptions(False)
+    config.set_terminate_after_run(False)
+    with config.command("pkg") as c:
+        c.add_argument("name", Argument.OPTIONAL).add_option("force", "f").add_option("to", "t", Option.REQUIRED_VALUE)
+        if shared_parser is not None:
+            c.set_args_parser(shared_parser)
+        with c.sub_command("add") as s:
+            s.add_argument("items", Argument.MULTI_VALUED)
+            if shared_parser is not None:
+                s.set_args_parser(shared_parser)
+    with config.command("ls") as c:
+        c.default()
+        c.add_argument("path", Argument.OPTIONAL)
+        if shared_parser is not None:
+            c.set_args_parser(shared_parser)
+    return ConsoleApplication(config)
+
+
+def _fmt():
+    from clikit.api.args.format import ArgsFormat, Argument, Option
+    return ArgsFormat([Argument("first", Argument.OPTIONAL), Argument("rest", Argument.MULTI_VALUED),
+                       Option("verbose", "v"), Option("name", "n", Option.REQUIRED_VALUE),
+                       Option("opt", "o", Option.OPTIONAL_VALUE), Option("force", "f")])
+
+
+# the options of `_fmt()` as the oracle knows them: (long name, short name, is a flag)
+FMT_OPTIONS = [("verbose", "v", True), ("name", "n", False), ("opt", "o", False), ("force", "f", True)]
+
+
 def _app():
     global _APP
     if _APP is None:
-        from clikit import ConsoleApplication
-        from clikit.config.default_application_config import DefaultApplicationConfig
-        from clikit.api.args.format import ArgsFormat, Argument, Option
-        config = DefaultApplicationConfig("app", "1.0")
-        config.set_catch_exceptions(False)
-        config.set_terminate_after_run(False)
-        with config.command("pkg") as c:
-            c.add_argument("name", Argument.OPTIONAL).add_option("force", "f").add_option("to", "t", Option.REQUIRED_VALUE)
-            with c.sub_command("add") as s:
-                s.add_argument("items", Argument.MULTI_VALUED)
-        with config.command("ls") as c:
-            c.default()
-            c.add_argument("path", Argument.OPTIONAL)
-        fmt = ArgsFormat([Argument("first", Argument.OPTIONAL), Argument("rest", Argument.MULTI_VALUED),
-                          Option("verbose", "v"), Option("name", "n", Option.REQUIRED_VALUE),
-                          Option("opt", "o", Option.OPTIONAL_VALUE), Option("force", "f")])
-        _APP = (ConsoleApplication(config), fmt)
+        _APP = (_make_app(), _fmt())
     return _APP
 
 
@@ -450,9 +532,47 @@ def _through_clikit(make_raw):
     return out
 
 
+def _run_history(case):
+    """stream h: the lines of the case, each in both forms one after the other, through ONE parser object"""
+    from harness import parser_common as pc
+    from clikit.args import StringArgs, ArgvArgs, DefaultArgsParser
+    parser = DefaultArgsParser()
+    via = case["via"]
+    fmt = _fmt() if via == "parser" else None
+    app = _make_app(parser) if via == "command" else None
+
+    def parse(make_raw, lenient):
+        def go():
+            return {"ok": pc.observe_args(fmt, parser.parse(make_raw(), fmt, lenient))}
+        r = _guard(go)
+        return {"err": r["exc"]} if "exc" in r else r
+
+    def resolve(make_raw):
+        def go():
+            rc = app.resolve_command(make_raw())
+            a = rc.args
+            return {"command": rc.command.name, "arguments": _jsonable(a.arguments(False)),
+                    "options": _jsonable(a.options(False)),
+                    "option_names": [[o.long_name, o.short_name] for o in rc.command.args_format.get_options().values()]}
+        return _guard(go)
+
+    out = []
+    for ln in case["lines"]:
+        s = py_render(ln["pieces"], ln["trail"])
+        toks = [p["tok"] for p in ln["pieces"]]
+        rec = {"string": s, "raw": _string_raw(s), "argv": _argv_raw(["script"] + toks)}
+        for form in ((("string", "argv") if ln["first"] == "string" else ("argv", "string"))):
+            mk = (lambda: StringArgs(s)) if form == "string" else (lambda: ArgvArgs(["script"] + toks))
+            rec[form + "_form"] = parse(mk, ln["lenient"]) if via == "parser" else resolve(mk)
+        out.append(rec)
+    return {"string": "", "raw": {}, "lines": out}
+
+
 def run_impl(case):
     from clikit.args import StringArgs, ArgvArgs
     k = case["k"]
+    if k == "h":
+        return _run_history(case)
     for pre in case.get("pre", []):
         # earlier tokenisations, whatever became of them
         x = pre if isinstance(pre, str) else ("'\"" * pre["deep"])[:pre["deep"]] if "deep" in pre else pre["bytes"].encode()
@@ -485,8 +605,33 @@ def run_impl(case):
 
 
 # ------------------------------------------------------------------ model side
+_FLAT = None
+
+
+def _flat():
+    global _FLAT
+    if _FLAT is None:
+        from harness import parser_common as pc
+        _FLAT = pc.flatten(_fmt())
+    return _FLAT
+
+
 def model_requests(case):
     k = case["k"]
+    if k == "h":
+        if case["via"] != "parser":
+            # through the application only the raw args are modelled here (the resolver is C03's / C17's model)
+            return [{"m": "c08.roundtrip", "pieces": ln["pieces"], "trail": ln["trail"]} for ln in case["lines"]]
+        from harness import parser_common as pc
+        lines, toks_all = [], []
+        for ln in case["lines"]:
+            toks = [p["tok"] for p in ln["pieces"]]
+            toks_all += toks
+            two = {"string": {"form": "string", "pieces": ln["pieces"], "trail": ln["trail"], "lenient": ln["lenient"]},
+                   "argv": {"form": "argv", "argv": ["script"] + toks, "lenient": ln["lenient"]}}
+            lines += [two["string"], two["argv"]] if ln["first"] == "string" else [two["argv"], two["string"]]
+        ints, floats = pc.conv_tables(pc.texts_of(_flat(), toks_all))
+        return [{"m": "c08.line_history", "fmt": _flat(), "ints": ints, "floats": floats, "lines": lines}]
     if k == "v":
         return [{"m": "c08.argv", "argv": case["argv"]}]
     if k == "w":
@@ -516,6 +661,17 @@ def _m_raw(ans):
 
 def model_obs(case, answers):
     k = case["k"]
+    if k == "h":
+        if case["via"] != "parser":
+            return {"lines": [{"string": _dec(a["string"]), "raw": _m_raw(a)} for a in answers]}
+        from harness import parser_common as pc
+        out = []
+        for i, ln in enumerate(case["lines"]):
+            a, b = answers[0][2 * i], answers[0][2 * i + 1]
+            st, av = (a, b) if ln["first"] == "string" else (b, a)
+            out.append({"raw": _m_raw(st), "argv": _m_raw(av),
+                        "string_form": pc.canon_model_answer(st["parse"]), "argv_form": pc.canon_model_answer(av["parse"])})
+        return {"lines": out}
     if k == "v":
         return {"string": "", "raw": _m_raw(answers[0])}
     if k == "w":
@@ -536,6 +692,11 @@ def model_obs(case, answers):
 
 def impl_view(case, obs):
     k = case["k"]
+    if k == "h":
+        if case["via"] != "parser":
+            return {"lines": [{"string": r["string"], "raw": r["raw"]} for r in obs["lines"]]}
+        return {"lines": [{"raw": r["raw"], "argv": r["argv"], "string_form": r["string_form"], "argv_form": r["argv_form"]}
+                          for r in obs["lines"]]}
     if k == "w":
         return {"spaces": obs["spaces"]}
     out = {"string": obs["string"], "raw": obs["raw"]}
@@ -559,7 +720,81 @@ def _same(a, b, what):
     return None
 
 
+def _spelled_before_dashes(tokens, long, short):
+    """does a token before the first `--` spell the option (generously: any short group containing its letter)"""
+    for t in py_before_dashes(tokens):
+        for n in (long, short):
+            if n and (t == "--" + n or t.startswith("--" + n + "=")):
+                return True
+        if short and t.startswith("-") and not t.startswith("--") and short in t[1:]:
+            return True
+    return False
+
+
+def _flat_values(vals):
+    out = []
+    for v in vals:
+        out += list(v) if isinstance(v, list) else [v]
+    return out
+
+
+def _oracle_history(case, obs):
+    """stream h: every line, in both forms, on one parser object that has parsed the earlier lines"""
+    from harness import parser_common as pc
+    via = case["via"]
+    for i, (ln, r) in enumerate(zip(case["lines"], obs["lines"])):
+        toks = [p["tok"] for p in ln["pieces"]]
+        where = "line %d %r (after %d earlier line(s) on the same parser object)" % (i, toks, i)
+        if "exc" in r["raw"]:
+            return "StringArgs(%r) raised %s" % (r["string"], r["raw"]["exc"])
+        if py_wf(ln["pieces"], ln["trail"]) and r["raw"]["tokens"] != toks:
+            return "round trip: %r tokenises to %r, written tokens were %r" % (r["string"], r["raw"]["tokens"], toks)
+        post = toks[toks.index("--") + 1:] if "--" in toks else []
+        for form in ("string_form", "argv_form"):
+            x = r[form]
+            if via == "parser":
+                if "ok" not in x:
+                    continue
+                given = [(n, pc.dec(v)) for n, v in x["ok"]["opts_set"]]
+                names = [(lg, sh) for lg, sh, _ in FMT_OPTIONS]
+                flags = [(lg, sh) for lg, sh, fl in FMT_OPTIONS if fl]
+                positionals = _flat_values([pc.dec(v) for _, v in x["ok"]["args_set"]])
+                strict_ok = not ln["lenient"]
+            else:
+                if "exc" in x:
+                    continue
+                given = list(x["options"].items())
+                names = [tuple(p) for p in x["option_names"]]
+                flags = [("force", "f")] if x["command"] in ("pkg", "add") else []
+                positionals = _flat_values(list(x["arguments"].values()))
+                strict_ok = True     # a resolved command's arguments are a strict parse
+            # only tokens BEFORE the first `--` count as option tokens ...
+            for n, v in given:
+                sh = dict(names).get(n)
+                if not _spelled_before_dashes(toks, n, sh):
+                    return "%s, %s: option %r is reported as given (%r) but no token before the first '--' spells it" % (
+                        where, form, n, v)
+            if strict_ok:
+                # ... and every one of them does (a successful strict parse has looked at every token)
+                for lg, sh in flags:
+                    if any(t in ("--" + lg, "-" + sh) for t in py_before_dashes(toks)) and (lg, True) not in given:
+                        return "%s, %s: the option token for %r stands before the first '--' but the option is not reported" % (
+                            where, form, lg)
+                # everything after the first `--` is an argument, whatever it looks like (judged on the parser alone: for
+                # a resolved command the parser re-aligns leading positionals that repeat the command's own name(s) -
+                # `-- help` on the default command - so the reported arguments need not end with the tail there)
+                if via == "parser" and post and positionals[len(positionals) - len(post):] != post:
+                    return "%s, %s: the tokens after '--' are %r, the arguments reported are %r" % (where, form, post, positionals)
+        # the command string and the equivalent argv list are indistinguishable to the parser / the resolver
+        if r["string_form"] != r["argv_form"]:
+            return "%s: given as a command string the %s answers %s, given as the argv list %s" % (
+                where, "parser" if via == "parser" else "resolver", str(r["string_form"])[:300], str(r["argv_form"])[:300])
+    return None
+
+
 def oracle(case, obs):
+    if case["k"] == "h":
+        return _oracle_history(case, obs)
     if case["k"] == "w":
         return None   # the whitespace table is an engine fact: compared with the model, nothing is demanded of clikit
     s = obs["string"]
@@ -622,6 +857,11 @@ def oracle(case, obs):
 
 # ------------------------------------------------------------------ statistics, search
 def nontrivial_key(case, obs):
+    if case["k"] == "h":
+        # non-trivial: a line with `--` before the last line
+        if any("--" in [p["tok"] for p in ln["pieces"]] for ln in case["lines"][:-1]):
+            return "h:%s:%s" % (case["via"], "\n".join(r["string"] for r in obs["lines"]))
+        return None
     if case["k"] == "w":
         return None
     if case["k"] == "v":
@@ -637,6 +877,10 @@ def bucket(case, obs):
     s = obs["string"]
     k = case["k"]
     raw = obs["raw"]
+    if k == "h":
+        dd = any("--" in [p["tok"] for p in ln["pieces"]] for ln in case["lines"][:-1])
+        return "h one parser object via %s, %d lines x 2 forms, %s" % (
+            case["via"], len(case["lines"]), "an earlier line has --" if dd else "no -- in earlier lines")
     if k == "w":
         return "w isspace table, %d whitespace code point(s) in the block" % min(len(obs["spaces"]), 9)
     if k == "v":
@@ -692,6 +936,21 @@ def _edits(s, alphabet):
 
 def shrink(case):
     k = case["k"]
+    if k == "h":
+        ls = case["lines"]
+        for i in range(len(ls)):
+            if len(ls) > 1:
+                yield dict(case, lines=ls[:i] + ls[i + 1:])
+        for i, ln in enumerate(ls):
+            ps = ln["pieces"]
+            for j in range(len(ps)):
+                yield dict(case, lines=ls[:i] + [dict(ln, pieces=ps[:j] + ps[j + 1:])] + ls[i + 1:])
+            if ln["trail"]:
+                yield dict(case, lines=ls[:i] + [dict(ln, trail="")] + ls[i + 1:])
+            for j, p in enumerate(ps):
+                if p["sep"] not in ("", " "):
+                    yield dict(case, lines=ls[:i] + [dict(ln, pieces=ps[:j] + [dict(p, sep=" ")] + ps[j + 1:])] + ls[i + 1:])
+        return
     if k == "w":
         if case["n"] > 1:
             h = case["n"] // 2
@@ -732,6 +991,11 @@ def shrink(case):
 
 def neighbours(case):
     k = case["k"]
+    if k == "h":
+        # the same lines through the other entry, and with the forms in the other order
+        yield dict(case, via="command" if case["via"] == "parser" else "parser")
+        yield dict(case, lines=[dict(ln, first="argv" if ln["first"] == "string" else "string") for ln in case["lines"]])
+        return
     if k == "w":
         return
     if k == "v":
